@@ -13,5 +13,6 @@
 //@include units/speclib_edf.rs
 //@include units/ros2_types.rs
 //@include units/ros2_bw.rs
+//@include units/lemmas_bw.rs
 
 fn main() {}
